@@ -529,12 +529,11 @@ func (d *Dumper) Function(pid int, fn *ir.Function, mode string) {
 			}
 		}
 	}
-	for bi, b := range fn.Blocks {
+	for _, b := range fn.Blocks {
 		if b == nil {
 			fmt.Fprintf(&bb, " - 0 0 0")
 			continue
 		}
-		_ = bi
 		fmt.Fprintf(&bb, " %d %d", b.Index, len(b.Preds))
 		for _, p := range b.Preds {
 			if p == nil || p.Parent() != fn {
